@@ -79,4 +79,13 @@ PROPS = {
         ],
         "assumptions": [],
     },
+    "C13": {
+        "modules": ["SamlModel.Props.C13"],
+        "translated": ["checkIfRequestTimeIsStillValid"],
+        "trusted_base": COMMON_TRUST + [
+            "Model.Logout is a hand-written model of logoutHandleFunc and the LogoutResponse builders: tied by theorem C13_source_current (regenerated chain skeleton = snapshot, fingerprints) and by the slo correspondence",
+            "XML decoding (DecodeLogoutRequest incl. base64/DEFLATE) and html/template rendering are oracles / covered by C17, C18",
+        ],
+        "assumptions": ["SpWF: registered metadata has an SPSSODescriptor (NewServiceProvider refuses metadata without one)"],
+    },
 }
